@@ -41,6 +41,10 @@ Atoms ==
            it \in ItemsA, vw \in { <<SAB, SB_>>, <<SB_, SAB>>, <<Num(1), Num(2)>>, <<Num(2), Num(1)>>, <<Bin(<<1>>), Bin(<<1, 2>>)>>, <<Str(<<>>), SAB>> } }
   \cup { Case([k |-> "in", x |-> Path("a"), xs |-> <<Val(":v"), Val(":w")>>], it, <<>>, V2(vw[1], vw[2])) :
            it \in ItemsA, vw \in { <<SAB, Num(1)>>, <<Num(2), Bool(TRUE)>>, <<NullV, Mk("M", [x |-> SAB])>>, <<Bin(<<1>>), Mk("L", <<SAB, Num(1)>>)>> } }
+  \* IN lists holding attribute paths, present and missing, before and after the operand that matches
+  \cup { Case([k |-> "in", x |-> Path("a"), xs |-> xs], it, <<>>, IF \E i \in DOMAIN xs : xs[i].k = "val" THEN V1(SAB) ELSE <<>>) : it \in ItemsA,
+           xs \in { <<Path("b"), Val(":v")>>, <<Path("zz"), Val(":v")>>, <<Val(":v"), Path("zz")>>, <<Path("zz"), Path("b")>>, <<Path("n"), Path("zz"), Val(":v")>> } }
+  \cup { Case([k |-> "in", x |-> Path(x), xs |-> <<Path("a"), Path("n")>>], it, <<>>, <<>>) : it \in ItemsA, x \in {"b", "n", "zz"} }
   \cup { Case(Fn(f, <<Path("a")>>), it, <<>>, <<>>) : f \in {"attribute_exists", "attribute_not_exists"}, it \in ItemsA }
   \cup { Case(Fn("attribute_type", <<Path("a"), Val(":v")>>), it, <<>>, V1(Str(tn))) : it \in ItemsA, tn \in TypeNames \cup { <<88>> } }
   \cup { Case(Fn("attribute_type", <<Path("a"), Val(":v")>>), it, <<>>, V1(Num(1))) : it \in ItemsA }
